@@ -326,6 +326,21 @@ def bom_case(rep, rng):
 			f.add_products([fa, fb])
 			if rng.random() < .4:
 				f.remove_product(fb); bom.pop(31)
+			# later BOM mutations on products that are already in the network: change a quantity, add and remove an entry
+			for fp, po in ((30, fa), (31, fb)):
+				if fp not in bom:
+					continue
+				for _ in range(rng.randint(0, 2)):
+					act = rng.choice(['change', 'add', 'remove'])
+					if act == 'change' and bom[fp]:
+						rm = rng.choice(sorted(bom[fp])); num = rng.choice([1, 2, 3, 5])
+						po.set_bill_of_materials(raw_material=rm, num_needed=num); bom[fp][rm] = num
+					elif act == 'add':
+						rm = rng.choice([10, 11, 20]); num = rng.choice([1, 2, 4])
+						po.set_bill_of_materials(raw_material=rm, num_needed=num); bom[fp][rm] = num
+					elif act == 'remove' and len(bom[fp]) > 1:
+						rm = rng.choice(sorted(bom[fp]))
+						po.set_bill_of_materials(raw_material=rm, num_needed=0); bom[fp].pop(rm)
 			sup = {10: 1, 11: 1, 20: 2}
 			prods_at = {1: [10, 11], 2: [20]}
 			for fp in bom:
